@@ -21,6 +21,8 @@
 #include <opm/input/eclipse/Schedule/Schedule.hpp>
 #include <opm/input/eclipse/Schedule/ScheduleState.hpp>
 #include <opm/input/eclipse/Schedule/SummaryState.hpp>
+#include <opm/input/eclipse/Schedule/VFPInjTable.hpp>
+#include <opm/input/eclipse/Schedule/VFPProdTable.hpp>
 #include <opm/input/eclipse/Schedule/Well/Connection.hpp>
 #include <opm/input/eclipse/Schedule/Well/Well.hpp>
 #include <opm/input/eclipse/Schedule/Well/WellConnections.hpp>
@@ -151,7 +153,27 @@ PROBE_CMD(units_model) {
                 .end_arr();
         }
         out.end_obj();
-        (void)state;
+        if (state.vfpprod.has(3)) {
+            const auto& t = state.vfpprod(3);
+            out.key("vfpprod").obj();
+            out.kv_d("datum", t.getDatumDepth());
+            put_vec(out, "flo", t.getFloAxis());
+            put_vec(out, "thp", t.getTHPAxis());
+            put_vec(out, "wfr", t.getWFRAxis());
+            put_vec(out, "gfr", t.getGFRAxis());
+            put_vec(out, "alq", t.getALQAxis());
+            put_vec(out, "bhp", t.getTable());
+            out.end_obj();
+        }
+        if (state.vfpinj.has(4)) {
+            const auto& t = state.vfpinj(4);
+            out.key("vfpinj").obj();
+            out.kv_d("datum", t.getDatumDepth());
+            put_vec(out, "flo", t.getFloAxis());
+            put_vec(out, "thp", t.getTHPAxis());
+            put_vec(out, "bhp", t.getTable());
+            out.end_obj();
+        }
         out.end_obj();
     }
     out.end_arr();
